@@ -121,3 +121,35 @@ func devC36Templates() {
 		}
 	}
 }
+
+// devC44Zoo: sim c44zoo <seed> <engine> [-src]  — runs one zoo history and its oracles on the tree under test (development aid).
+func devC44Zoo(args []string) {
+	var seed uint64
+	fmt.Sscanf(args[0], "%d", &seed)
+	engine := "interp"
+	if len(args) > 1 {
+		engine = args[1]
+	}
+	zr := runZoo(seed, engine)
+	if len(args) > 2 {
+		fmt.Println(zooStoreTx(GenZoo(seed)))
+		fmt.Println(zr.Verify)
+	}
+	for _, v := range zr.V {
+		fmt.Println("VIOL", clip(v.String(), 3000))
+	}
+	if len(zr.V) > 0 {
+		return
+	}
+	fmt.Printf("zoo %d on %s: %d entries kept, %d registers\n", seed, engine, len(zr.Entries), len(zr.W.Ledger))
+	for _, v := range checkZooLedger(zr.W, zr.Verify, predictedOf(zr.Entries), []string{"interp", "vm"}) {
+		fmt.Println("VIOL", clip(v.String(), 3000))
+	}
+	d, err := DumpDomains(zr.W)
+	fmt.Println("domains:", len(d), err)
+	if len(args) > 3 {
+		for _, k := range sortedStringKeys(d) {
+			fmt.Println("  ", k, "=", clip(d[k], 200))
+		}
+	}
+}
